@@ -71,6 +71,22 @@ pub enum Shape {
     Lattice,
 }
 
+/// Degenerate inputs (small n; no parallel split is needed for them): the fall-back branches of the
+/// initialisers ("every point already coincides with a chosen centroid") only run on such data.
+#[derive(Clone, Copy, Debug, PartialEq, Serialize, Deserialize)]
+pub enum Degenerate {
+    /// fewer distinct rows than clusters, each repeated
+    FewerDistinctThanK,
+    /// exactly as many distinct rows as clusters, each repeated
+    DistinctEqualsK,
+    AllRowsEqual,
+    /// one sample, one cluster
+    SingleSample,
+    SingleFeature,
+    /// blobs whose last columns (at least one) are constant
+    ConstantColumns,
+}
+
 #[derive(Clone, Copy, Debug, PartialEq, Serialize, Deserialize)]
 pub enum Mode {
     /// `fit` with explicit rng
@@ -108,10 +124,35 @@ pub struct Cfg {
     /// Size thresholds (k > 100) can hide a different code path.
     #[serde(default)]
     pub many: bool,
+    #[serde(default)]
+    pub degenerate: Option<Degenerate>,
 }
 
 impl Cfg {
+    fn degenerate_data(&self, d: Degenerate, seed: u64, n: usize) -> Array2<f64> {
+        match d {
+            Degenerate::FewerDistinctThanK => data::few_distinct(seed, n, self.p, 1 + (seed % (self.k.max(2) as u64 - 1)) as usize),
+            Degenerate::DistinctEqualsK => data::few_distinct(seed, n, self.p, self.k),
+            Degenerate::AllRowsEqual => data::few_distinct(seed, n, self.p, 1),
+            Degenerate::SingleSample => data::gaussian(seed, n, self.p),
+            Degenerate::SingleFeature => data::blobs(seed, n, 1, self.k, 0.5),
+            Degenerate::ConstantColumns => {
+                let mut x = data::blobs(seed, n, self.p, self.k, 0.5);
+                let from = (self.p / 2).min(self.p - 1);
+                for j in from.max(if self.p > 1 { 1 } else { 0 })..self.p {
+                    x.column_mut(j).fill(1.5);
+                }
+                if self.p == 1 {
+                    x.column_mut(0).fill(1.5);
+                }
+                x
+            }
+        }
+    }
     fn observations(&self) -> Array2<f64> {
+        if let Some(d) = self.degenerate {
+            return self.degenerate_data(d, self.data_seed, self.n);
+        }
         if self.many {
             return data::uniform(self.data_seed, self.n, self.p, 40.0);
         }
@@ -121,6 +162,11 @@ impl Cfg {
         }
     }
     fn queries(&self) -> Array2<f64> {
+        if let Some(d) = self.degenerate {
+            // the training rows' neighbourhood: same construction, other seed, plus jitter-free copies
+            let p = if d == Degenerate::SingleFeature { 1 } else { self.p };
+            return data::gaussian(self.data_seed ^ 0x77, 17, p);
+        }
         if self.many {
             return data::uniform(self.data_seed ^ 0x77, 64, self.p, 40.0);
         }
@@ -322,6 +368,18 @@ impl Runnable for Cfg {
         }
         obs.class_if(crate::BOUNDARY_SEEDS.contains(&self.rng_seed) && !matches!(self.mode, Mode::Defaults | Mode::GmmDefaults), "boundary_rng_seed");
         obs.class_if(self.rng_seed == 0 && !matches!(self.mode, Mode::Defaults | Mode::GmmDefaults), "rng_seed_zero");
+        if let Some(d) = self.degenerate {
+            obs.class(match d {
+                Degenerate::FewerDistinctThanK => "degenerate_fewer_distinct_rows_than_clusters",
+                Degenerate::DistinctEqualsK => "degenerate_distinct_rows_equal_clusters",
+                Degenerate::AllRowsEqual => "degenerate_all_rows_equal",
+                Degenerate::SingleSample => "degenerate_single_sample",
+                Degenerate::SingleFeature => "degenerate_single_feature",
+                Degenerate::ConstantColumns => "degenerate_constant_columns",
+            });
+            // non-trivial for the fall-back branches it reaches, not for a parallel split
+            obs.nontrivial();
+        }
         obs.class_if(self.many, "many_components_k_over_100");
         obs.class_if(self.many && self.is_gmm(), "gmm_many_components");
         obs.class_if(
@@ -404,8 +462,52 @@ fn regular(tier: Tier) -> impl Strategy<Value = Cfg> {
                 tol_exp: if gmm { tol_exp.min(3) } else { tol_exp },
                 batches,
                 many: false,
+                degenerate: None,
             }
         })
+}
+
+/// small degenerate inputs through every k-means / mixture mode
+fn degenerate_cases() -> impl Strategy<Value = Cfg> {
+    let mode = prop_oneof![
+        4 => Just(Mode::Fit),
+        2 => Just(Mode::MiniBatch),
+        2 => Just(Mode::Defaults),
+        2 => Just(Mode::GmmKMeans),
+        1 => Just(Mode::GmmDefaults),
+        1 => Just(Mode::GmmRandom),
+    ];
+    let deg = prop_oneof![
+        4 => Just(Degenerate::FewerDistinctThanK),
+        2 => Just(Degenerate::DistinctEqualsK),
+        2 => Just(Degenerate::AllRowsEqual),
+        1 => Just(Degenerate::SingleSample),
+        1 => Just(Degenerate::SingleFeature),
+        1 => Just(Degenerate::ConstantColumns),
+    ];
+    let init = prop_oneof![3 => Just(Init::PlusPlus), 1 => Just(Init::Random), 1 => Just(Init::Precomputed)];
+    (mode, deg, init, any::<u64>(), crate::seed_strategy(), 8usize..=64, 1usize..=4, 2usize..=7, 1usize..=2, any::<bool>()).prop_map(
+        |(mode, deg, init, data_seed, rng_seed, n, p, k, n_runs, l1)| {
+            let single = deg == Degenerate::SingleSample;
+            Cfg {
+                mode,
+                shape: Shape::Blobs,
+                data_seed,
+                rng_seed,
+                n: if single { 1 } else { n.max(k + 1) },
+                p,
+                k: if single { 1 } else { k },
+                init,
+                l1: l1 && matches!(mode, Mode::Fit | Mode::MiniBatch),
+                n_runs,
+                max_iter: 10,
+                tol_exp: 4,
+                batches: 2,
+                many: false,
+                degenerate: Some(deg),
+            }
+        },
+    )
 }
 
 /// k in {101, 128}: GMM (k-means init, random init, builder defaults) and K-means with Random / KMeans++ init.
@@ -433,6 +535,7 @@ fn many_components() -> impl Strategy<Value = Cfg> {
             tol_exp: 3,
             batches: 2,
             many: true,
+            degenerate: None,
         },
     )
 }
@@ -441,6 +544,7 @@ pub fn strategy(tier: Tier) -> impl Strategy<Value = Cfg> {
     prop_oneof![
         5 => regular(tier).boxed(),
         1 => many_components().boxed(),
+        3 => degenerate_cases().boxed(),
     ]
 }
 
@@ -462,6 +566,7 @@ pub fn threshold_cases() -> Vec<Cfg> {
         tol_exp: 3,
         batches: 2,
         many: true,
+        degenerate: None,
     };
     vec![
         mk(Mode::GmmKMeans, Init::PlusPlus, 101, 220, 2, 1),
@@ -496,8 +601,44 @@ pub fn boundary_seed_cases() -> Vec<Cfg> {
                 tol_exp: 3,
                 batches: 2,
                 many: false,
+                degenerate: None,
             });
         }
     }
     v
+}
+
+/// Fixed degenerate inputs that are part of every run.
+pub fn degenerate_fixed_cases() -> Vec<Cfg> {
+    let mk = |mode: Mode, deg: Degenerate, init: Init, n: usize, p: usize, k: usize, s: u64| Cfg {
+        mode,
+        shape: Shape::Blobs,
+        data_seed: 0xde9e_0000 + s,
+        rng_seed: 11 + s,
+        n,
+        p,
+        k,
+        init,
+        l1: false,
+        n_runs: 1,
+        max_iter: 10,
+        tol_exp: 4,
+        batches: 2,
+        many: false,
+        degenerate: Some(deg),
+    };
+    vec![
+        mk(Mode::Fit, Degenerate::FewerDistinctThanK, Init::PlusPlus, 12, 2, 5, 1),
+        mk(Mode::Fit, Degenerate::FewerDistinctThanK, Init::PlusPlus, 30, 1, 7, 2),
+        mk(Mode::Defaults, Degenerate::FewerDistinctThanK, Init::PlusPlus, 20, 3, 4, 3),
+        mk(Mode::MiniBatch, Degenerate::FewerDistinctThanK, Init::PlusPlus, 24, 2, 6, 4),
+        mk(Mode::GmmKMeans, Degenerate::FewerDistinctThanK, Init::PlusPlus, 24, 2, 4, 5),
+        mk(Mode::GmmDefaults, Degenerate::FewerDistinctThanK, Init::PlusPlus, 18, 2, 3, 6),
+        mk(Mode::Fit, Degenerate::AllRowsEqual, Init::PlusPlus, 9, 2, 3, 7),
+        mk(Mode::Defaults, Degenerate::AllRowsEqual, Init::PlusPlus, 9, 2, 3, 8),
+        mk(Mode::Fit, Degenerate::DistinctEqualsK, Init::PlusPlus, 16, 2, 4, 9),
+        mk(Mode::Fit, Degenerate::FewerDistinctThanK, Init::Random, 12, 2, 5, 10),
+        mk(Mode::Fit, Degenerate::SingleSample, Init::PlusPlus, 1, 2, 1, 11),
+        mk(Mode::Fit, Degenerate::ConstantColumns, Init::PlusPlus, 20, 3, 3, 12),
+    ]
 }
